@@ -415,6 +415,23 @@ theorem srf_after_updates_periodic (eqv : Mdl ℝ → Mdl ℝ → Bool) (heq : E
   rw [coherent_modes_eq_derived st hc, h1, h2]
   exact periodic_srf sched hs Q _ _ m.anis sf z1 z2 N m.dim X x x' d₀ c hL ha hQ hshift i
 
+/-- the same with the derotation the code builds from the model's angles (dim 1-3): the complete statement of C17 for
+    histories — constructor, any setter / update calls, then an SRF call with a model of any anisotropy and rotation -/
+theorem srf_after_updates_periodic_rotated (eqv : Mdl ℝ → Mdl ℝ → Bool) (heq : EqvExact eqv) (us : List (Upd ℝ))
+    (m : Mdl ℝ) (hdim3 : m.dim ≤ 3) (angles : Nat → ℝ) (seed : Option Nat)
+    (sched : Sched) (hs : sched.Admissible) (sf z1 z2 : Nat → ℝ) (N X : Nat) (x x' : Nat → Nat → ℝ)
+    (d₀ : Nat) (hd₀ : d₀ < m.dim) (c : Nat → ℤ) :
+    let st0 := run eqv blank us
+    let st := (update eqv st0 ⟨some m, seed, none, none⟩).1
+    st0.hasPeriod = true → m.dim = st0.model.dim →
+    (∀ d < m.dim, st.period d ≠ 0) → (∀ d < m.dim, anisP m.anis d ≠ 0) →
+    (∀ e < m.dim, ∀ i < X, x' e i = x e i + (c i : ℝ) * st.period d₀ * derot m.dim angles d₀ e) →
+    ∀ i, srfField sched (derot m.dim angles) m.anis sf st.modes z1 z2 N x' m.dim X i =
+      srfField sched (derot m.dim angles) m.anis sf st.modes z1 z2 N x m.dim X i := by
+  intro st0 st hp hdim hL ha hshift i
+  exact srf_after_updates_periodic eqv heq us m seed (derot m.dim angles) sched hs sf z1 z2 N X x x' d₀ c hp hdim hL ha
+    (fun d hd => rowsON_derot m.dim hdim3 angles d hd d₀ hd₀) hshift i
+
 /-- the code's model comparison (`np.isclose` on the anisotropy) is NOT exact: two models that compare equal with
     different anisotropy (known finding F4: the generator then keeps the grid of the old anisotropy) -/
 theorem isclose_not_exact : ¬ EqvExact (mdlClose : Mdl ℝ → Mdl ℝ → Bool) := by
